@@ -92,8 +92,30 @@ def size_boundary(rng, region, classc):
     return net.line()
 
 
+def expired_session_walk(rng, region, classc):
+    """the uplink counter space is exhausted (or about to be): downlinks accepted on the way out must still be remembered, their replays refused"""
+    net = machist.Net(rng, region)
+    net.abp()
+    net.op("patch up=%d" % rng.choice([0xFFFFFFFF, 0xFFFFFFFE, 0xFFFFFFFF]))
+    net.snap()
+    kept = []
+    for _ in range(rng.range(3, 6)):
+        net.send(rng.bytes(rng.below(3)), rng.range(1, 200), rng.chance(1, 4))
+        rxc = classc and rng.chance(1, 3)
+        cmds = rng.choice([b"", machist.rx_timing(rng.below(16)), machist.dev_status()])
+        f = net.downlink(cmds, rng.choice([None, 7]), b"" if rng.chance(1, 2) else rng.bytes(3), confirmed=rng.chance(1, 3), rxc=rxc)
+        kept.append(f)
+        net.snap()
+        if rng.chance(2, 3):
+            net.raw_rx(rng.choice(kept), rxc=classc and rng.chance(1, 2))
+            net.snap()
+        if rng.chance(1, 2):
+            net.rx2c()
+    return net.line()
+
+
 def gen(rng, tier):
-    lines = []
+    lines = [expired_session_walk(rng.fork("x%d" % i), i % 9, i % 2 == 0) for i in range(27 if tier == "quick" else 450)]
     starts = [None, 0xFFF0, 0xFFFF, 0x10000 - 16384, 0x1FFF0, 0xFFFF0000 - 5, 0xFFFFFFFF - 20000, 0xFFFFFFFF - 3, 0xFFFFFFFF]
     n = 6 if tier == "quick" else 120
     for i in range(n):
